@@ -413,9 +413,19 @@ func runC09(res *Result, tier string, seed int64, replay string) {
 	reported := map[string]bool{}
 	// noop: writing the Spec winner on the element itself (keeping every source in place) must not change the body
 	noop := func(doc *Node, pick func(d *Node) *Node, attr, winner, level string, informative bool) bool {
+		if attr == "name" && strings.Contains(level, "mj-class") {
+			// an mj-class cannot supply `name`: on <mj-class> that attribute is the name of the class itself
+			res.Count("cell=skipped(mj-class-cannot-carry-name)")
+			return true
+		}
 		with := doc.Clone()
 		e := pick(with)
 		if e == nil {
+			return true
+		}
+		if _, own := e.Get(attr); own {
+			// the element writes the attribute itself: its own value is the winner, whatever the head supplies
+			res.Count("cell=skipped(own-value-written)")
 			return true
 		}
 		e.Set(attr, winner)
@@ -486,6 +496,13 @@ func runC09(res *Result, tier string, seed int64, replay string) {
 					}
 				})
 				return t
+			}
+			// the legal context may already write the attribute on the element (href, src, name): the cells are about values that
+			// come from the head, so the element must not write it
+			if t := find(base); t != nil {
+				if _, has := t.Get(attr); has {
+					t.Del(attr)
+				}
 			}
 			own := base.Clone()
 			find(own).Set(attr, v1)
@@ -563,6 +580,9 @@ func runC09(res *Result, tier string, seed int64, replay string) {
 			noop(withHead(func(at, d *Node) { at.Kids = append(at.Kids, mk("mj-all", attr, v2), mk(tag, attr, v1)) }), find, attr, v1, "tag-default>mj-all", informative)
 			// the element's own value wins: the loser's value must be irrelevant (class and tag default reach only this element)
 			for _, lv := range []string{"mj-class", "tag-default"} {
+				if attr == "name" && lv == "mj-class" {
+					continue
+				}
 				mkDoc := func(loser string) *Node {
 					return withHead(func(at, d *Node) {
 						if lv == "mj-class" {
